@@ -29,6 +29,8 @@ Inductive node :=
 | NLet (name target : Z)                   (* \let\name=\target *)
 | NCall (name : Z) (opt : option (list node)) (args : list (list node))
 | NParam (k : nat)                         (* #k, only meaningful inside a body *)
+| NParam2 (k : nat)                        (* ##k: parameter k of a definition nested inside a body *)
+| NExpandAfter (a b : Z)                   (* \expandafter\a\b with \b parameterless: \b is expanded first *)
 | NHash                                    (* ## in a body: a literal # (printed text "#") *)
 | NCond (t : test) (thn : list node) (els : option (list node))
 | NCase (a : operand) (branches : list (list node)) (els : option (list node))
@@ -91,6 +93,22 @@ Definition eval_test (e : env) (t : test) : bool :=
                    end
   end.
 
+(* when a body is expanded, the parameters of definitions nested in it lose one level of # *)
+Fixpoint lower (fuel : nat) (body : list node) : list node :=
+  match fuel with O => body | S f =>
+  let low := lower f in
+  map (fun n =>
+    match n with
+    | NParam2 k => NParam k
+    | NGroup b => NGroup (low b)
+    | NDef g nm np d b => NDef g nm np (option_map low d) (low b)
+    | NCall nm o a => NCall nm (option_map low o) (map low a)
+    | NCond t th el => NCond t (low th) (option_map low el)
+    | NCase a bs el => NCase a (map low bs) (option_map low el)
+    | other => other
+    end) body
+  end.
+
 (* textual substitution of arguments for parameters (## stays a literal #) *)
 Fixpoint subst (fuel : nat) (args : list (list node)) (body : list node) : list node :=
   match fuel with O => body | S f =>
@@ -99,7 +117,7 @@ Fixpoint subst (fuel : nat) (args : list (list node)) (body : list node) : list 
     match n with
     | NParam k => nth (k - 1) args []
     | NGroup b => [NGroup (sub b)]
-    | NDef g nm np d b => [NDef g nm np (option_map sub d) (sub b)]
+    | NDef g nm np d b => [NDef g nm np (option_map sub d) (lower 50 (sub b))]
     | NCall nm o a => [NCall nm (option_map sub o) (map sub a)]
     | NCond t th el => [NCond t (sub th) (option_map sub el)]
     | NCase a bs el => [NCase a (map sub bs) (option_map sub el)]
@@ -122,6 +140,31 @@ Fixpoint eval (fuel : nat) (e : env) (out : list Z) (ns : list node) : outcome :
     | NWord w => continue e (w :: out)
     | NHash => continue e (HASH :: out)
     | NParam _ => continue e out
+    | NParam2 _ => continue e out
+    | NExpandAfter a b =>
+        match lookup_frames a (frames e), lookup_frames b (frames e) with
+        | Some ma, Some mb =>
+            (* \b (no parameters) is replaced by its body; then \a finds its arguments there: the body must start
+               with one brace group per parameter of \a *)
+            let fix take (k : nat) (l : list node) (acc : list (list node)) : option (list (list node) * list node) :=
+              match k with
+              | O => Some (rev acc, l)
+              | S k' => match l with NGroup g :: l' => take k' l' (g :: acc) | _ => None end
+              end in
+            match m_n mb, m_default mb, m_default ma with
+            | O, None, None =>
+                match take (m_n ma) (subst 50 [] (m_body mb)) [] with
+                | Some (args, after) =>
+                    match eval f e out (NCall a None args :: after) with
+                    | Ok e' out' => continue e' out'
+                    | other => other
+                    end
+                | None => Stuck 3
+                end
+            | _, _, _ => Stuck 3
+            end
+        | _, _ => Stuck 1
+        end
     | NGroup b =>
         match eval f {| frames := [] :: frames e; counters := counters e; switches := switches e |} out b with
         | Ok e' out' => continue {| frames := tl (frames e'); counters := counters e'; switches := switches e' |} out'
@@ -221,6 +264,8 @@ Fixpoint node_of (fuel : nat) (v : val) {struct fuel} : option node :=
   | VL [VI 11; VI c] => Some (NStep c)
   | VL [VI 12; VI c; VI z] => Some (NSetC c z)
   | VL [VI 13; VI c; VI z] => Some (NAddC c z)
+  | VL [VI 14; VI a; VI b] => Some (NExpandAfter a b)
+  | VL [VI 15; VI k] => if k <? 1 then None else Some (NParam2 (Z.to_nat k))
   | _ => None
   end end.
 
